@@ -204,6 +204,8 @@ impl AsyncFileSystem for PendFS {
 
 pub struct ABuilt {
     pub root: AsyncVfsPath,
+    /// for a top-level overlay: the roots of its layers, upper first (like config::Built::layers)
+    pub layers: Vec<AsyncVfsPath>,
     pub _scratch: Vec<Arc<Scratch>>,
 }
 
@@ -357,6 +359,7 @@ pub async fn abuild(cfg: &Cfg, prepop: &Prepop, plan: Option<Arc<PendPlan>>) -> 
             prefix.push_str(ALT_NAMES[i % ALT_NAMES.len()]);
         }
     }
+    let mut layers: Vec<AsyncVfsPath> = vec![];
     let core = match cur {
         Cfg::Ovl(ls) => {
             let mut roots = vec![];
@@ -367,6 +370,7 @@ pub async fn abuild(cfg: &Cfg, prepop: &Prepop, plan: Option<Arc<PendPlan>>) -> 
                 let li = *li % roots.len();
                 awrite_entry(&roots[li], &format!("{}{}", prefix, p), n).await?;
             }
+            layers = roots.clone();
             AsyncVfsPath::new(AsyncOverlayFS::new(&roots))
         }
         Cfg::OvlSub(inner, n) => {
@@ -383,6 +387,7 @@ pub async fn abuild(cfg: &Cfg, prepop: &Prepop, plan: Option<Arc<PendPlan>>) -> 
                 let view = AsyncVfsPath::new(AsyncAltrootFS::new(roots[li].clone()));
                 awrite_entry(&view, &format!("{}{}", prefix, p), node).await?;
             }
+            layers = roots.iter().map(|r| AsyncVfsPath::new(AsyncAltrootFS::new(r.clone()))).collect();
             AsyncVfsPath::new(AsyncOverlayFS::new(&roots))
         }
         other => abuild_inner(other, &mut scratch, &plan).await?,
@@ -401,7 +406,7 @@ pub async fn abuild(cfg: &Cfg, prepop: &Prepop, plan: Option<Arc<PendPlan>>) -> 
             awrite_entry(&root, p, n).await?;
         }
     }
-    Ok(ABuilt { root, _scratch: scratch })
+    Ok(ABuilt { root, layers, _scratch: scratch })
 }
 
 // ---------------------------------------------------------------------------------------------
